@@ -54,6 +54,8 @@ pub struct FlagT { pub v: bool }
 impl FlagT {
     #[verifier::external_body]
     pub fn load(&self, o: Ordering) -> (r: bool) ensures r == self.v { unimplemented!() }
+    #[verifier::external_body]
+    pub fn store(&mut self, v: bool, o: Ordering) ensures final(self).v == v { }
 }
 pub struct CounterT { pub n: Sequence }
 impl CounterT {
@@ -345,6 +347,28 @@ fn engine_load_decode(buf: BufT, hash: u64, indexer: &mut IndexerT, block: &Bloc
                 &&& (d is Ok ==> r matches Ok(Load::Entry { .. }))
             }
         }), // @label checksum_or_range_failure_is_a_miss_and_index_entry_is_dropped
+//@end
+
+// ---- BlockEngine::close: stop accepting work FIRST, then wait for flushers and reclaimers (C15)
+pub struct CloseInnerT { pub active: FlagT }
+pub struct CloseThisT { pub inner: CloseInnerT, pub waited_while_active: Ghost<bool>, pub waits: Ghost<nat> }
+impl CloseThisT {
+    /// `this.wait()`: waits for flushers and reclaimers; records whether new work could still arrive meanwhile
+    #[verifier::external_body]
+    pub fn wait(&mut self)
+        ensures final(self).inner == old(self).inner, final(self).waits@ == old(self).waits@ + 1,
+            final(self).waited_while_active@ == (old(self).waited_while_active@ || old(self).inner.active.v),
+    { }
+}
+//@region foyer-storage/src/engine/block/engine.rs :: impl~^impl<K, V, P> BlockEngine<K, V, P> where/fn close name=engine_close start=/async move \{/ body=1 rules=de-async
+//@head
+fn engine_close(this: &mut CloseThisT) -> (r: Result<()>)
+    requires !old(this).waited_while_active@,
+    ensures
+        !final(this).inner.active.v, // @label engine_inactive_after_close
+        final(this).waits@ == old(this).waits@ + 1, // @label close_waits_for_flushers_and_reclaimers
+        !final(this).waited_while_active@, // @label new_work_is_refused_before_waiting
+        r is Ok,
 //@end
 
 } // verus!
